@@ -559,7 +559,7 @@ func (c *Ctx) ruleMember(rule string) {
 				// the same test written as a lookup: `_, found := values[data]` found true
 				if ex, isEx := cond.V.(*ssa.Extract); isEx && ex.Index == 1 && cond.True {
 					if lk, isLk := ex.Tuple.(*ssa.Lookup); isLk && lk.CommaOk && strings.HasSuffix(c.M.ValPath(lk.X), ".ValidValuesMap") &&
-						lk.Index == ssa.Value(fn.Params[len(fn.Params)-1]) {
+						viaArg(cond, lk.Index) == ssa.Value(fn.Params[len(fn.Params)-1]) {
 						found = true
 					}
 				}
@@ -579,8 +579,9 @@ func (c *Ctx) ruleMember(rule string) {
 					rg, ok := nx.Iter.(*ssa.Range)
 					return ok && strings.HasSuffix(c.M.ValPath(rg.X), ".ValidValuesMap")
 				}
+				// (the test may sit in a helper of the receiver that is handed the datum: its parameter stands for it)
 				data := fn.Params[len(fn.Params)-1]
-				if (isKey(bin.X) && bin.Y == ssa.Value(data)) || (isKey(bin.Y) && bin.X == ssa.Value(data)) {
+				if (isKey(bin.X) && viaArg(cond, bin.Y) == ssa.Value(data)) || (isKey(bin.Y) && viaArg(cond, bin.X) == ssa.Value(data)) {
 					found = true
 				}
 			}
